@@ -6,7 +6,9 @@ import SdModel.Lemmas.DeriveKnot
 `Derive.semTy t` is the generated `impl StructDiff` of a type with descriptor `t` (any nesting depth, any mix of
 the eight field templates, any skip pattern, structs and enums); `Derive.relTy t` packages, by structural
 recursion over `t`,
-* `wt`    : the value has the shape of the type (maps have distinct keys),
+* `wt`    : the value has the shape of the type (maps have distinct keys). Nothing is assumed about the `==` of
+  plain / enum payloads beyond symmetry and transitivity (`Derive.veq` identifies `0.0` and `-0.0` and makes `NaN`
+  unequal to itself); values with `NaN` inside are covered,
 * `post f b r` : "`r` is what patching the base `f` towards the target `b` must look like": per field —
   skipped: `r = f`;  plain / enum / ordered: `r = b`;  unordered array: `r` equals `b` as a multiset;
   flat map: `r` equals `b` as a map;  nested: `post` of the nested type (so nested skipped fields keep the
@@ -44,10 +46,18 @@ theorem spost_head_unskipped (F : FieldSem) (R : FieldRel) (fs : FS) (f b r : Va
     (h : SPost ((false, F, R) :: fs) (.cons f fr) (.cons b bs) (.cons r rs)) : R.post f b r ∧ SPost fs fr bs rs := by
   simpa [SPost] using h
 
-/-- plain, enum-typed and ordered fields match exactly -/
-theorem post_plain (f b r : Val) : (relKind .plain).post f b r ↔ r = b := by simp [relKind, plainRel]
+/-- plain and enum-typed fields hold `b`'s value — or, when nothing was sent because the base's value is `==` to it
+under the type's own `PartialEq` (e.g. `0.0` / `-0.0`), still the base's value; ordered fields match exactly -/
+theorem post_plain (f b r : Val) : (relKind .plain).post f b r ↔ (r = b ∨ (r = f ∧ veq b f = true)) := by
+  simp [relKind, plainRel]
 theorem post_ordered (f b r : Val) : (relKind .ordered).post f b r ↔ r = b := by simp [relKind, orderedRel]
-theorem post_enum (f b r : Val) : (relTy .enum).post f b r ↔ r = b := by simp [relTy, enumRel]
+theorem post_enum (f b r : Val) : (relTy .enum).post f b r ↔ (r = b ∨ (r = f ∧ veq b f = true)) := by
+  simp [relTy, enumRel]
+/-- for a type whose `==` is identity on the values at hand, that is exactly `b`'s value -/
+theorem post_plain_lawful (f b r : Val) (h : veq b f = true → b = f) : (relKind .plain).post f b r → r = b := by
+  rw [post_plain]; rintro (h1 | ⟨h1, h2⟩)
+  · exact h1
+  · rw [h1, h h2]
 /-- unordered arrays match as multisets -/
 theorem post_unord (f b r : Val) :
     (relKind .unordArr).post f b r ↔ ∃ l, r = .list l ∧ ∀ x, l.count x = (asList b).count x := by
@@ -72,8 +82,19 @@ example : (relTy exTy).wt exA ∧ (relTy exTy).wt exB := by
   constructor <;>
   · refine ⟨_, rfl, ?_⟩
     simp only [relFields, SWT, relKind, plainRel, unordRel, recurseRel, relTy, structRel, orderedRel]
-    refine ⟨trivial, trivial, ⟨_, rfl⟩, ⟨_, rfl, ?_⟩, trivial⟩
+    refine ⟨by decide, by decide, ⟨_, rfl⟩, ⟨_, rfl, ?_⟩, trivial⟩
     simp only [SWT]
-    exact ⟨⟨_, rfl⟩, trivial, trivial⟩
+    exact ⟨⟨_, rfl⟩, by decide, trivial⟩
+
+/-- values with `NaN` inside are well-typed: the theorems cover them -/
+def exNaN : Val := .strct (.cons (.atom nanCode) (.cons (.atom nanCode) (.cons (.list [2, 2, 1])
+  (.cons (.strct (.cons (.list [1, 3]) (.cons (.atom nanCode) .nil))) .nil))))
+
+example : (relTy exTy).wt exNaN ∧ veq exNaN exNaN = false := by
+  refine ⟨⟨_, rfl, ?_⟩, by decide⟩
+  simp only [relFields, SWT, relKind, plainRel, unordRel, recurseRel, relTy, structRel, orderedRel]
+  refine ⟨trivial, trivial, ⟨_, rfl⟩, ⟨_, rfl, ?_⟩, trivial⟩
+  simp only [SWT]
+  exact ⟨⟨_, rfl⟩, trivial, trivial⟩
 
 end C01
